@@ -466,6 +466,18 @@ def gen_dynamic(r, sizes, tmpdir, n_random):
         else:
             body = rtf + "<xsl:value-of select=\"%s\"/>" % esc(e)
         out.append(("dynamic:type:" + name, sheet("<xsl:key name='kk' match='a' use='@n'/><xsl:template match='/'>" + body + "</xsl:template>"), DOC, None))
+    # --- computed names that are not legal: the node is not created, the content still is (repaired defect 00427ff:
+    #     xsl:element with an illegal computed name AND use-attribute-sets read an empty stack of attribute-set indexes)
+    asets = ("<xsl:attribute-set name='s'><xsl:attribute name='a'>1</xsl:attribute></xsl:attribute-set>"
+             "<xsl:attribute-set name='t' use-attribute-sets='s'><xsl:attribute name='b'>2</xsl:attribute></xsl:attribute-set>")
+    for bad in ["{'1bad'}", "p:x", "{concat('u', ':', 'x')}", "{''}", "a b", "xmlns:q", "{//a[1]/@n}", ":x", "x:", "{'ok'}"]:
+        for uas in ("", " use-attribute-sets='s'", " use-attribute-sets='t s'"):
+            for kids in ("x", "<xsl:attribute name='d'>4</xsl:attribute>y<xsl:element name='in'%s>z</xsl:element>" % uas,
+                         "<xsl:element name=\"%s\"%s>deep</xsl:element>" % (bad, uas)):
+                body = "<out><xsl:element name=\"%s\"%s>%s</xsl:element><xsl:copy%s>c</xsl:copy></out>" % (bad, uas, kids, uas)
+                out.append(("dynamic:illegal-computed-name:element", sheet(asets + "<xsl:template match='/'>" + body + "</xsl:template>", "xml"), DOC, None))
+        out.append(("dynamic:illegal-computed-name:attribute", tmpl("<out><xsl:attribute name=\"%s\">v</xsl:attribute>t</out>" % bad, "xml"), DOC, None))
+        out.append(("dynamic:illegal-computed-name:pi", tmpl("<out><xsl:processing-instruction name=\"%s\">v</xsl:processing-instruction>t</out>" % bad, "xml"), DOC, None))
     # --- unknown functions / extension namespaces, with and without function-available guards
     for fn in ["u:f(1)", "str:nosuch(1)", "x:nosuch()", "nosuch()", "xsl:f()", "str:tokenize()", "x:nodeset()", "x:nodeset(1, 2)", "document()", "key('k')", "format-number(1)",
                "function-available()", "function-available(1, 2)", "function-available('zz:f')", "element-available('zz:e')", "system-property('zz:p')", "system-property()", "unparsed-entity-uri()",
